@@ -7,6 +7,7 @@
   Every theorem is for ALL widths and ALL values; nothing is enumerated.
 -/
 import FalconProofs.C04.Eval
+import FalconProofs.C04.Derived
 
 namespace Falcon.C04
 open Falcon Falcon.Const
@@ -279,6 +280,26 @@ theorem sra_spec {n} (hn : 1 ≤ n) (h64 : n < 2 ^ 64) (x y : BitVec n) :
   simp only [Expr.sra, Expr.mkBin, Expr.bits, ofBV_bits, ne_eq, not_true_eq_false, ↓reduceIte, Res.bind_ok,
     Expr.eval, BinOp.apply]
   exact ashr_spec hn h64 x y
+
+/-- `Expression::rotl` is the left rotation, the amount counting modulo the width (after the repair: also
+    for amounts beyond the width) -/
+theorem rotl_spec {n} (hn : 1 ≤ n) (h64 : n < 2 ^ 64) (x s : BitVec n) :
+    (Expr.rotl (.const (ofBV x)) (.const (ofBV s)) >>= Expr.eval) = .ok (ofBV (x.rotateLeft s.toNat)) :=
+  rotl_ofBV hn h64 x s
+
+/-- scalar substitution agrees with evaluation: if `replace_scalar x r e` succeeds, the result evaluates (under
+    any valuation `ρ` of the remaining scalars) to what `e` evaluates to with `x` bound to the value of `r` -/
+theorem replaceScalar_spec (x : Scalar) (r : Expr) (ρ : Scalar → Option Const) (v : Const)
+    (hr : evalUnder ρ r = .ok v) (e e' : Expr) (h : Expr.replaceScalar x r e = .ok e') :
+    evalUnder ρ e' = evalUnder (fun s => if s = x then some v else ρ s) e :=
+  replaceScalar_eval x r ρ v hr e e' h
+
+/-- a width-changing substitution is rejected with a sort error and nothing else can go wrong -/
+theorem replaceScalar_sort_only (x : Scalar) (r e : Expr) :
+    (∃ e', Expr.replaceScalar x r e = .ok e') ∨ Expr.replaceScalar x r e = .err .sort :=
+  replaceScalar_fail x r e
+
+theorem eval_is_evalUnder_empty (e : Expr) : e.eval = evalUnder (fun _ => none) e := eval_eq_evalUnder e
 
 /-! ### non-vacuity: the hypotheses are met by concrete non-trivial constants at 1, 7, 64, 65, 128 bits -/
 
